@@ -377,3 +377,76 @@ func CliqueRich(t *rapid.T, n int) ([][]int, []string) {
 	}
 	return rapid.Permutation(cls).Draw(t, "order"), shapes
 }
+
+// Ladder draws formulas whose refutation / search goes through learned clauses with hundreds or
+// thousands of literals: a long clause x_1 v ... v x_n (split on a helper y), then one of three tails:
+//   "unsat":  x_k -> x_k+1 for all k (each split on a helper z_k) and not x_n (split on w): unsatisfiable;
+//   "sat":    the same without "not x_n": satisfiable;
+//   "gadget": only x_1 -> x_2 v q1 v q2 (split on z): satisfiable, the second conflict resolves on the
+//             n-literal learned clause.
+// Variables are numbered in a drawn order (helpers first or last, x ascending or descending), which
+// decides the order of the solver's first decisions. It returns n(variables), clauses and the tail kind.
+func Ladder(t *rapid.T, nx int) (int, [][]int, string) {
+	tail := rapid.SampledFrom([]string{"unsat", "unsat", "sat", "gadget"}).Draw(t, "tail")
+	if nx > 800 {
+		tail = "gadget" // the chains learn about nx clauses of about nx/2 literals: too much text for a certificate
+	}
+	helpersFirst := rapid.Bool().Draw(t, "helpersFirst")
+	desc := rapid.Bool().Draw(t, "xDescending")
+	next := 1 + rapid.IntRange(0, 2).Draw(t, "unusedFirst") // a few variables that occur in no clause come first
+	newVar := func() int { v := next; next++; return v }
+	var y, w, q1, q2 int
+	zs := make([]int, nx+1)
+	allocHelpers := func() { // only the helpers the tail needs: unused variables would add decision levels
+		y = newVar()
+		if tail == "unsat" {
+			w = newVar()
+		}
+		nz := nx - 1
+		if tail == "gadget" {
+			nz = 1
+		}
+		for k := 1; k <= nz; k++ {
+			zs[k] = newVar()
+		}
+	}
+	xs := make([]int, nx+1)
+	if helpersFirst {
+		allocHelpers()
+	} else if tail == "gadget" {
+		q1, q2 = newVar(), newVar()
+	}
+	for k := 1; k <= nx; k++ {
+		xs[k] = newVar()
+	}
+	if desc {
+		for i, j := 1, nx; i < j; i, j = i+1, j-1 {
+			xs[i], xs[j] = xs[j], xs[i]
+		}
+	}
+	if !helpersFirst {
+		allocHelpers()
+	} else if tail == "gadget" {
+		q1, q2 = newVar(), newVar()
+	}
+	long := func(extra int) []int {
+		c := make([]int, 0, nx+1)
+		for k := 1; k <= nx; k++ {
+			c = append(c, xs[k])
+		}
+		return append(c, extra)
+	}
+	cls := [][]int{long(y), long(-y)}
+	switch tail {
+	case "gadget":
+		cls = append(cls, []int{-xs[1], xs[2], zs[1], q1, q2}, []int{-xs[1], xs[2], -zs[1], q1, q2})
+	default:
+		for k := 1; k < nx; k++ {
+			cls = append(cls, []int{-xs[k], xs[k+1], zs[k]}, []int{-xs[k], xs[k+1], -zs[k]})
+		}
+		if tail == "unsat" {
+			cls = append(cls, []int{-xs[nx], w}, []int{-xs[nx], -w})
+		}
+	}
+	return next - 1 + rapid.IntRange(0, 2).Draw(t, "unusedLast"), cls, tail
+}
